@@ -9,11 +9,11 @@
 #include "utf_ref.h"
 
 /* ---------------- units: decode step (loop-free, full domain) */
-/*@unit {'name':'c11_utf8_get',  'props':['C11','C05'], 'entry':'h_get', 'enforce':'CODEC_get', 'defines':['ENC=8','REF_LENIENT_SURROGATES'], 'replay':'c11_utf', 'witness_defines':[], 'witness_vars':['w_avail','w_u'],
+/*@unit {'name':'c11_utf8_get',  'props':['C11','C12','C05'], 'entry':'h_get', 'enforce':'CODEC_get', 'defines':['ENC=8','REF_LENIENT_SURROGATES'], 'replay':'c11_utf', 'witness_defines':[], 'witness_vars':['w_avail','w_u'],
   'claims':'_utf_codec<8>::get agrees with the Unicode reference decoder on (well-formed?, scalar value, length), returns U+FFFD with a negative length on ill-formed input, skips only continuation bytes, and reads only the units the tail rule allows (exact-size buffer of 1..4 units)'}@*/
-/*@unit {'name':'c11_utf16_get', 'props':['C11','C05'], 'entry':'h_get', 'enforce':'CODEC_get', 'defines':['ENC=16','REF_LENIENT_SURROGATES'], 'replay':'c11_utf', 'witness_defines':[], 'witness_vars':['w_avail','w_u'],
+/*@unit {'name':'c11_utf16_get', 'props':['C11','C12','C05'], 'entry':'h_get', 'enforce':'CODEC_get', 'defines':['ENC=16','REF_LENIENT_SURROGATES'], 'replay':'c11_utf', 'witness_defines':[], 'witness_vars':['w_avail','w_u'],
   'claims':'_utf_codec<16>::get agrees with the reference decoder (D91), unpaired surrogates give U+FFFD/-1'}@*/
-/*@unit {'name':'c11_utf32_get', 'props':['C11','C05'], 'entry':'h_get', 'enforce':'CODEC_get', 'defines':['ENC=32','REF_LENIENT_SURROGATES'], 'replay':'c11_utf', 'witness_defines':[], 'witness_vars':['w_avail','w_u'],
+/*@unit {'name':'c11_utf32_get', 'props':['C11','C12','C05'], 'entry':'h_get', 'enforce':'CODEC_get', 'defines':['ENC=32','REF_LENIENT_SURROGATES'], 'replay':'c11_utf', 'witness_defines':[], 'witness_vars':['w_avail','w_u'],
   'claims':'_utf_codec<32>::get accepts exactly values below 0x110000 (surrogate values: see c11_utf32_get_strict)'}@*/
 /*@unit {'name':'c11_utf8_get_strict',  'props':['C11'], 'entry':'h_get', 'enforce':'CODEC_get', 'defines':['ENC=8'], 'replay':'c11_utf', 'witness_defines':[], 'witness_vars':['w_avail','w_u'],
   'claims':'same contract with the strict reference (ED A0..BF xx, i.e. surrogate code points, are ill-formed per Table 3-7)'}@*/
@@ -35,112 +35,7 @@
 /*@unit {'name':'c11_count16_nul', 'props':['C11'], 'entry':'h_count_nul', 'enforce':'count_unicode_chars', 'replace':['CODEC_get','CODEC_validate'], 'defines':['ENC=16','REF_LENIENT_SURROGATES'], 'defines_quick':['ENC=16','REF_LENIENT_SURROGATES','MAXN=256'], 'min_loops':1, 'cost':30, 'replay':'c11_utf', 'witness_defines':['WITNESS'], 'witness_vars':['w_n','w_u'], 'claims':'same for UTF-16'}@*/
 /*@unit {'name':'c11_count32_nul', 'props':['C11'], 'entry':'h_count_nul', 'enforce':'count_unicode_chars', 'replace':['CODEC_get','CODEC_validate'], 'defines':['ENC=32','REF_LENIENT_SURROGATES'], 'defines_quick':['ENC=32','REF_LENIENT_SURROGATES','MAXN=256'], 'min_loops':1, 'cost':30, 'replay':'c11_utf', 'witness_defines':['WITNESS'], 'witness_vars':['w_n','w_u'], 'claims':'same for UTF-32'}@*/
 
-#if ENC == 8
-typedef uint8 CU;
-#define REF ref8
-#define TAIL(p, a) TAIL8(p, a)
-#elif ENC == 16
-typedef uint16 CU;
-#define REF ref16
-#define TAIL(p, a) TAIL16(p, a)
-#else
-typedef uint32 CU;
-#define REF ref32
-#define TAIL(p, a) 1
-#endif
-typedef CU codeunit_t;
-
-/* the iterator object: exactly the two data members of _utf_iterator<C> */
-typedef struct { const CU *cp; int8 sl; } utf_iter;
-
-/* ------------------------------------------------------------------ ghost state */
-const CU *g_begin;   /* first code unit of the caller's buffer */
-const CU *g_end;     /* one past the last readable code unit (end of the allocation) */
-#define AVAIL(p) ((size_t)((OFF(g_end) - OFF(p)) / (long)sizeof(CU)))
-
-static bool   ref_ok (const CU *p, size_t a) { return REF(p, a).ok;  }
-static uint32 ref_usv(const CU *p, size_t a) { return REF(p, a).usv; }
-static int    ref_len(const CU *p, size_t a) { return REF(p, a).len; }
-#define ABS8(l) ((l) < 0 ? -(int)(l) : (int)(l))
-#if ENC == 8
-#define SKIP_ONLY_CONT(p, l) ((ABS8(l) < 2 || CONT((p)[1])) && (ABS8(l) < 3 || CONT((p)[2])) && (ABS8(l) < 4 || CONT((p)[3])))
-#elif ENC == 16
-#define SKIP_ONLY_CONT(p, l) ((l) == 1 || (l) == -1 || ((l) == 2 && (p)[1] >= 0xDC00 && (p)[1] <= 0xDFFF))
-#else
-#define SKIP_ONLY_CONT(p, l) ((l) == 1 || (l) == -1)
-#endif
-
-/* ------------------------------------------------------------------ contracts */
-uchar_t CODEC_get(const CU *cp, int8 *l)
-__CPROVER_requires(SAME(cp, g_end) && OFF(cp) < OFF(g_end) && OFF(cp) % (long)sizeof(CU) == 0 && OFF(g_end) % (long)sizeof(CU) == 0)
-__CPROVER_requires(OFF(g_end) == (long)OBJSZ(g_end))          /* g_end is the end of the allocation: reads beyond it are out of bounds */
-__CPROVER_requires(TAIL(cp, AVAIL(cp)))                         /* established by validate / the terminating NUL */
-__CPROVER_requires(__CPROVER_is_fresh(l, 1))
-__CPROVER_assigns(*l)
-__CPROVER_ensures(*l != 0 && ABS8(*l) <= 4 && (size_t)ABS8(*l) <= AVAIL(cp))
-__CPROVER_ensures((*l > 0) == ref_ok(cp, AVAIL(cp)))
-__CPROVER_ensures(*l > 0 ==> (__CPROVER_return_value == ref_usv(cp, AVAIL(cp)) && *l == ref_len(cp, AVAIL(cp))))
-__CPROVER_ensures(*l < 0 ==> __CPROVER_return_value == 0xFFFD)
-__CPROVER_ensures(SKIP_ONLY_CONT(cp, *l))                        /* resynchronisation: a skipped unit never starts a character */
-__CPROVER_ensures(__CPROVER_return_value < 0x110000);
-
-/* "the buffer [s,e) does not end in a truncated multi-unit sequence", over the last <= 3 units */
-#if ENC == 8
-#define TRUNC_AT(e, n, j) ((n) >= (j) && ANNOUNCE8((e)[-(j)]) > (j) && ((j) < 2 || CONT((e)[-1])) && ((j) < 3 || CONT((e)[-2])))
-#define TRUNCATED(s, e, n) (TRUNC_AT(e, n, 1) || TRUNC_AT(e, n, 2) || TRUNC_AT(e, n, 3))
-#elif ENC == 16
-#define TRUNCATED(s, e, n) ((n) >= 1 && (e)[-1] >= 0xD800 && (e)[-1] <= 0xDBFF)
-#else
-#define TRUNCATED(s, e, n) 0
-#endif
-bool CODEC_validate(const CU *s, const CU *const e)
-__CPROVER_requires(s == g_begin && e == g_end && SAME(s, e) && OFF(s) <= OFF(e))
-__CPROVER_assigns()
-__CPROVER_ensures(__CPROVER_return_value == !TRUNCATED(s, e, AVAIL(s)));
-
-size_t count_unicode_chars(utf_iter first, const utf_iter last, const void **error);
-
-/* ------------------------------------------------------------------ extracted code */
-#if ENC == 8
-/*@extract {'if':'ENC=8', 'file':'src/UtfCodec.cpp', 'kind':'range', 'start': r'const int8 _utf_codec<8>::sz_lut\[16\]', 'end': r'const byte\s+_utf_codec<8>::mask_lut\[5\] = \{[^}]*\};', 'end_inclusive': True,
-            'subs': [[r'_utf_codec<8>::', '', 2]]}@*/
-/*@extract {'if':'ENC=8', 'file':'src/inc/UtfCodec.h', 'scope': r'struct _utf_codec<8>', 'kind':'range', 'start': r'static const uchar_t\s+limit\s*=', 'end': r';', 'end_inclusive': True}@*/
-/*@extract {'if':'ENC=8', 'file':'src/inc/UtfCodec.h', 'scope': r'struct _utf_codec<8>', 'sig': r'static uchar_t get\(const codeunit_t \* cp, int8 & l\) throw\(\)',
-            'emit':'uchar_t CODEC_get(const CU * cp, int8 * l)', 'refs':['l']}@*/
-/*@extract {'if':'ENC=8', 'file':'src/inc/UtfCodec.h', 'scope': r'struct _utf_codec<8>', 'sig': r'static bool validate\(const codeunit_t \* s, const codeunit_t \* const e\) throw\(\)',
-            'emit':'bool CODEC_validate(const CU * s, const CU * const e)'}@*/
-#endif
-
-#if ENC == 16
-/*@extract {'if':'ENC=16', 'file':'src/inc/UtfCodec.h', 'scope': r'struct _utf_codec<16>', 'kind':'range', 'start': r'static const int32\s+lead_offset', 'end': r'surrogate_offset\s*=[^;]*;', 'end_inclusive': True}@*/
-/*@extract {'if':'ENC=16', 'file':'src/inc/UtfCodec.h', 'scope': r'struct _utf_codec<16>', 'sig': r'static uchar_t get\(const codeunit_t \* cp, int8 & l\) throw\(\)',
-            'emit':'uchar_t CODEC_get(const CU * cp, int8 * l)', 'refs':['l']}@*/
-/*@extract {'if':'ENC=16', 'file':'src/inc/UtfCodec.h', 'scope': r'struct _utf_codec<16>', 'sig': r'static bool validate\(const codeunit_t \* s, const codeunit_t \* const e\) throw\(\)',
-            'emit':'bool CODEC_validate(const CU * s, const CU * const e)'}@*/
-#endif
-#if ENC == 32
-/*@extract {'if':'ENC=32', 'file':'src/inc/UtfCodec.h', 'scope': r'struct _utf_codec<32>', 'kind':'range', 'start': r'static const uchar_t\s+limit\s*=', 'end': r';', 'end_inclusive': True}@*/
-/*@extract {'if':'ENC=32', 'file':'src/inc/UtfCodec.h', 'scope': r'struct _utf_codec<32>', 'sig': r'static uchar_t get\(const codeunit_t \* cp, int8 & l\) throw\(\)',
-            'emit':'uchar_t CODEC_get(const CU * cp, int8 * l)', 'refs':['l']}@*/
-/*@extract {'if':'ENC=32', 'file':'src/inc/UtfCodec.h', 'scope': r'struct _utf_codec<32>', 'sig': r'static bool validate\(const codeunit_t \* s, const codeunit_t \* const e\) throw\(\)',
-            'emit':'bool CODEC_validate(const CU * s, const CU * const e)'}@*/
-#endif
-
-/* ---- the iterator's operators, extracted as functions on the two-field struct (R6: implicit this -> self) */
-/*@extract {'file':'src/inc/UtfCodec.h', 'scope': r'class _utf_iterator\s*\{', 'sig': r'_utf_iterator\s*&\s*operator \+\+ \(\)', 'emit':'static void IT_inc(utf_iter *self)',
-            'self':['cp','sl'], 'subs':[[r'return \*this;', 'return;', 1]]}@*/
-/*@extract {'file':'src/inc/UtfCodec.h', 'scope': r'class _utf_iterator\s*\{', 'sig': r'bool operator == \(const _utf_iterator & rhs\) const throw\(\)', 'emit':'static bool IT_eq(const utf_iter *self, const utf_iter *rhs)',
-            'subs':[[r'rhs\.cp', 'rhs->cp', 1]], 'self':['cp','sl']}@*/
-/*@extract {'file':'src/inc/UtfCodec.h', 'scope': r'class _utf_iterator\s*\{', 'sig': r'bool operator != \(const _utf_iterator & rhs\) const throw\(\)', 'emit':'static bool IT_ne(const utf_iter *self, const utf_iter *rhs)',
-            'subs':[[r'operator==\(rhs\)', 'IT_eq(self, rhs)', 1]]}@*/
-/*@extract {'file':'src/inc/UtfCodec.h', 'scope': r'class _utf_iterator\s*\{', 'sig': r'bool error\(\) const throw\(\)', 'emit':'static bool IT_error(const utf_iter *self)', 'self':['cp','sl']}@*/
-/*@extract {'file':'src/inc/UtfCodec.h', 'scope': r'class _utf_iterator\s*\{', 'sig': r'bool validate\(const _utf_iterator & e\)', 'emit':'static bool IT_validate(utf_iter *self, const utf_iter *e)',
-            'subs':[[r'codec::validate', 'CODEC_validate', 1], [r'e\.cp', 'e->cp', 1]], 'self':['cp','sl']}@*/
-/* operator* -> reference -> operator value_type(): { return codec::get(_i.cp, _i.sl); } */
-/*@extract {'file':'src/inc/UtfCodec.h', 'scope': r'class _utf_iterator\s*\{', 'sig': r'operator value_type \(\) const throw \(\)', 'emit':'static uchar_t IT_deref(utf_iter *_i)',
-            'subs':[[r'codec::get\(_i\.cp, _i\.sl\)', 'CODEC_get(_i->cp, &_i->sl)', 1]]}@*/
-/* operator codeunit_type * () */
-/*@extract {'file':'src/inc/UtfCodec.h', 'scope': r'class _utf_iterator\s*\{', 'sig': r'operator codeunit_type \* \(\) const throw\(\)', 'emit':'static const CU * IT_ptr(const utf_iter *self)', 'self':['cp','sl']}@*/
+/*@include utf_common.tc@*/
 
 /* ghost state of the lock-step reference counter (updated only by inserted ghost statements) */
 const CU *g_pos;  size_t g_cnt;  bool g_stopped;  bool g_ill;  const CU *g_illpos;  bool g_nulmode; size_t g_n;
